@@ -296,7 +296,7 @@ def run(M, c):
             fsep = r.choice(".,")
             ds, ed = iso.render_date(d, form)
             ts, tf = iso.render_time(H, Mi, S, tform, frac, fsep)
-            offm = r.choice((None, 0, r.randrange(-1439, 1440), r.choice((-1439, 1439, 330, -210, 60, -60))))
+            offm = r.choice((None, 0, r.randrange(-1439, 1440), r.choice((-1439, 1439, 330, -210, 60, -60, -30, -1, -59, 1, 59))))
             oform = r.choice(OFF_FORMS)
             if offm is not None and oform == "Z" and offm != 0:
                 oform = "hh:mm"
@@ -360,7 +360,7 @@ def run(M, c):
             F = us_to_fields(u)
             if F[0] < 1000:
                 continue
-            offm = r.choice((0, 0, r.randrange(-1439, 1440)))
+            offm = r.choice((0, 0, r.randrange(-1439, 1440), r.choice((-30, -1, -59, 30, 1439, -1439))))
             tz = P.UTC if (offm == 0 and i % 3) else P.tz.timezone.FixedTimezone(offm * 60)
             x = P.DateTime(*F, tzinfo=tz)
             saved = M.current
